@@ -1,31 +1,31 @@
 import CbiVerif.Props.C17
 import CbiVerif.Lemmas.FGroups
 import CbiVerif.Spec.FortranNodes
-import CbiVerif.Spec.FortranHash
 /-!
 # C17 — the NODES of a free-form Fortran file (the Fortran analogue of `C05.nodes_of_ok`)
 
 `C17.lines_eq_ref` says which physical lines are counted; `nodes_eq_ref` says how `FileParser` groups them: one node per
 directive line, one per maximal run of counted lines between directive lines (`Spec/FortranNodes.lean`; a `#` line whose first
-token is `##` is counted text, not a directive: `Fortran.isPasteLine`, `Lemmas/FPaste.lean`), every node holding at least one line.  The proof follows the reference run line by line (`Lemmas/FGroups.lean`) and tracks the FIRST character of the
-joined buffer of `fortran_file_source`: a logical line is classified as a preprocessor directive by
-`one_space_line.category()` iff its buffer starts with `#`, and a continued statement never does — except in finding class
-F-C17-2 (`Spec/FortranHash.lean`), which is real (`finding_F_C17_2`) and therefore a hypothesis.
+token is `##` is counted text, not a directive: `Fortran.isPasteLine`, `Lemmas/FPaste.lean`), every node holding at least one line.
+The proof follows the reference run line by line (`Lemmas/FGroups.lean`).  Before the repair of F-C17-2 the statement needed the
+hypothesis "no continuation line whose `#` opens the text of a statement that began with lone `&` lines": the code classified a
+logical line by the first character of its JOINED buffer; since the repair text assembled from statement lines is never a
+directive (`F_C17_2_fixed`).
 -/
 namespace CbiVerif.C17
 open CbiVerif CbiVerif.Fortran
 
-/-- **C17.nodes_eq_ref.**  For every text the reference scanner accepts, with no line of finding class F-C17-1 and no line of
-    finding class F-C17-2: `fortran_file_source` does not raise and the node list `FileParser` builds from it is the
+/-- **C17.nodes_eq_ref.**  For every text the reference scanner accepts, with no line of finding class F-C17-1:
+    `fortran_file_source` does not raise and the node list `FileParser` builds from it is the
     specification's — every preprocessor directive line is a node of its own, maximal runs of counted lines between directive
     lines form the code nodes (so a continued statement, its interleaved comment lines left out, is never cut and never read
     as a directive), and `num_lines = len(lines) ≥ 1` for every node. -/
 theorem nodes_eq_ref (text : String) (r : List (Bool × Bool)) (h : refText text = some r)
-    (hk : ∀ x ∈ r, x.2 = false) (hh : hashHeadLines text = []) :
+    (hk : ∀ x ∈ r, x.2 = false) :
     ∃ lls, fortranSource text = .ok lls ∧
       (group lls).map (fun nd => (nd.isDir, nd.lines)) = refNodes text ∧
       ∀ nd ∈ group lls, nd.numLines = nd.lines.length ∧ 1 ≤ nd.numLines := by
-  obtain ⟨lls, h1, h2⟩ := groups_eq_ref text r h hk hh
+  obtain ⟨lls, h1, h2⟩ := groups_eq_ref text r h hk
   refine ⟨lls, h1, h2, fun nd hnd => ?_⟩
   have hn := (structural_nodes lls).2 nd hnd
   refine ⟨hn, ?_⟩
@@ -38,47 +38,42 @@ theorem nodes_eq_ref (text : String) (r : List (Bool × Bool)) (h : refText text
 
 /-- the hypotheses are satisfiable by a non-trivial text: trailing comment, sentinel, `#ifdef/#else/#endif`, a statement
     continued over a blank and a comment line inside a character literal, a statement that BEGINS with a lone `&` line (F2018
-    forbids it, the reference accepts it) and a `#` as statement text on a continuation line (not F-C17-2: text precedes it);
+    forbids it, the reference accepts it) and a `#` as statement text on a continuation line;
     and the conclusion is not trivial: three directive nodes, three code nodes, lines 5, 6 and 12 in no node -/
 example :
     (let text := "x = 1 ! c\n!$omp do\n#ifdef A\ny = 'a!&''b&\n\n  ! c\n  &c' // &\n  z\n#else\n&\n  & w = 2 + &\n  ! note\n  & #3\n#endif\n"
-     (refText text).map (fun r => r.all fun x => !x.2) = some true ∧ hashHeadLines text = [] ∧
+     (refText text).map (fun r => r.all fun x => !x.2) = some true ∧
      refNodes text = [(false, [1, 2]), (true, [3]), (false, [4, 7, 8]), (true, [9]), (false, [11, 13]), (true, [14])] ∧
      (fortranSource text).toOption.map (fun lls => (group lls).map fun nd => (nd.isDir, nd.lines)) = some (refNodes text)) := by
   decide
 
 /-- `#` lines whose first token is `##` (the paste operator) are counted like every `#` line but are NOT directives: inside the
-    reference's `WF`, no finding class — specification and code (after the repair of F-C05-3, `FileParser.is_directive`) put
+    reference's `WF` — specification and code (after the repair of F-C05-3, `FileParser.is_directive`) put
     them into the run of counted lines around them -/
 example :
     (let text := "x = 1\n## a\ny = 2\n  ## b\n#define A\nz = 3\n# # c\n"
-     (refText text).map (fun r => r.all fun x => !x.2) = some true ∧ hashHeadLines text = [] ∧
+     (refText text).map (fun r => r.all fun x => !x.2) = some true ∧
      refNodes text = [(false, [1, 2, 3, 4]), (true, [5]), (false, [6]), (true, [7])] ∧
      (fortranSource text).toOption.map (fun lls => (group lls).map fun nd => (nd.isDir, nd.lines)) = some (refNodes text)) := by
   decide
 
-/-! ## recorded finding F-C17-2 -/
+/-! ## repaired finding F-C17-2 -/
 
 def witnessF2 : String := "x = 1\n&\n&#define A\ny = 2\n"
 
-/-- the finding class is real: the reference accepts the witness (no F-C17-1 line) and counts lines 1, 3 and 4 as ONE run of
-    statement text — line 3 is a continuation line, its `#` is not the first non-blank character, `gfortran -cpp -E` leaves it
-    alone — and marks line 3 as F-C17-2; the model of the code (as the code) counts the same lines but cuts them into three
-    nodes, line 3 being read as the preprocessor directive `#define A`. -/
-theorem finding_F_C17_2 :
+/-- **F_C17_2_fixed.**  The former finding class F-C17-2 — a continuation line whose `#` opens the text of a statement that
+    began with lines holding only `&` was read as a preprocessor directive (three nodes, `#define A` taking effect), because
+    `one_space_line.category()` looks at the first character of the joined buffer — is repaired: on the former witness the
+    model of the repaired code counts lines 1, 3 and 4 as ONE code node, as the reference groups them (line 3 is a continuation
+    line, its `#` is statement text, `gfortran -cpp -E` leaves it alone); likewise with leading blanks, an interleaved comment
+    and a further continuation. -/
+theorem F_C17_2_fixed :
     (refText witnessF2).map countedLines = some [1, 3, 4] ∧ (refText witnessF2).map kLines = some [] ∧
-    hashHeadLines witnessF2 = [3] ∧ refNodes witnessF2 = [(false, [1, 3, 4])] ∧
+    refNodes witnessF2 = [(false, [1, 3, 4])] ∧
     (fortranSource witnessF2).toOption.map (fun lls => (group lls).map fun nd => (nd.isDir, nd.lines))
-      = some [(false, [1]), (true, [3]), (false, [4])] := by decide
-
-/-- … whereas the same `#` after statement text (`x = &` / `&#define A`), or on a statement that merely BEGINS with a lone `&`
-    line, is grouped as the specification groups it (so the classifier is narrow) -/
-theorem finding_F_C17_2_narrow :
-    hashHeadLines "x = &\n&#define A\ny = 2\n" = [] ∧
-    (fortranSource "x = &\n&#define A\ny = 2\n").toOption.map (fun lls => (group lls).map fun nd => (nd.isDir, nd.lines))
-      = some [(false, [1, 2, 3])] ∧
-    hashHeadLines "&\n&x = 1\n#define A\n" = [] ∧
-    (fortranSource "&\n&x = 1\n#define A\n").toOption.map (fun lls => (group lls).map fun nd => (nd.isDir, nd.lines))
-      = some [(false, [2]), (true, [3])] := by decide
+      = some [(false, [1, 3, 4])] ∧
+    (fortranSource "& ! c\n  ! note\n& &\n  & #undef A &\n  & 1\n#define A\n").toOption.map
+        (fun lls => (group lls).map fun nd => (nd.isDir, nd.lines))
+      = some [(false, [4, 5]), (true, [6])] := by decide
 
 end CbiVerif.C17
